@@ -1287,7 +1287,11 @@ class PGPMessage(Armorable, PGPObject):
         if unarmored['magic'] == 'SIGNATURE':
             # the composition for this will be the 'cleartext' as a str,
             # followed by one or more signatures (each one loaded into a PGPSignature)
-            self |= self.dash_unescape(unarmored['cleartext'])
+            # the text may have travelled with <CR><LF> line endings; the line ending before the signature block is not part of it
+            cleartext = unarmored['cleartext'].replace('\r\n', '\n')
+            if cleartext.endswith('\r'):
+                cleartext = cleartext[:-1]
+            self |= self.dash_unescape(cleartext)
             while len(data) > 0:
                 pkt = Packet(data)
                 if not isinstance(pkt, Signature):  # pragma: no cover
